@@ -436,7 +436,7 @@ impl PlacementPairs {
 }
 impl Family for PlacementPairs {
     fn name(&self) -> String {
-        format!("placement-pairs/{} templates x 7x7 placements x 3x3 arguments", self.ts.len())
+        format!("placement-pairs/{} templates x 7x7 placements (also the same placement twice: two attributes on one element) x 3x3 arguments", self.ts.len())
     }
     fn len(&self) -> u64 {
         self.ts.len() as u64 * 441
@@ -451,7 +451,9 @@ impl Family for PlacementPairs {
         let mut out = CaseOut::new(hash_str(&format!("c13pp{idx}")));
         out.steps = 0;
         out.validated = 1;
-        if !place_exists(t, a.0) || !place_exists(t, b.0) || a.0 == b.0 {
+        // (equal placements: two allow attributes on ONE element / file, two -A options; the same argument twice is the
+        // single placement again)
+        if !place_exists(t, a.0) || !place_exists(t, b.0) || (a.0 == b.0 && a.1 == b.1) {
             out.class = "n/a".into();
             return out;
         }
